@@ -64,14 +64,15 @@ Inductive pop :=
   | OHas (p : path)
   | ORemove (p : path)
   | OWalk (p : path)
-  | OModify (p : path) (z : Z).      (* (bag-modify b (lambda (x) z) path) *)
+  | OModify (p : path) (z : Z)       (* (bag-modify b (lambda (x) z) path) *)
+  | OModifyFn (p : path) (f : mfn).  (* (bag-modify b (lambda (x) x) path) / (lambda (x) 'constant) *)
 
 (* ---- equality of Lisp objects and Go data ------------------------------------------------------- *)
 Fixpoint lobj_eqb (a b : lobj) {struct a} : bool :=
   match a, b with
   | LNil, LNil | LT, LT => true
-  | LFix x, LFix y | LOctet x, LOctet y | LTime x, LTime y => Z.eqb x y
-  | LDouble x, LDouble y | LStr x, LStr y | LSym x, LSym y => bytes_eqb x y
+  | LFix x, LFix y | LBig x, LBig y | LOctet x, LOctet y | LTime x, LTime y => Z.eqb x y
+  | LDouble x, LDouble y | LLong x, LLong y | LStr x, LStr y | LSym x, LSym y => bytes_eqb x y
   | LList l, LList m =>
     (fix go (l m : list lobj) : bool :=
        match l, m with [], [] => true | x :: l', y :: m' => lobj_eqb x y && go l' m' | _, _ => false end) l m
@@ -201,6 +202,16 @@ Definition check_path (pre : jv) (op : pop) (err : bool) (post : jv) (res : list
     match bag_modify p (JInt z) pre with
     | None => code (err && same post pre) g (err && same post pre)
     | Some v' => code (negb err && same post v') g (negb err && same post v')
+    end
+  | OModifyFn p f =>
+    match bag_modify_fn p f pre with
+    | None => code (err && same post pre) g (err && same post pre)
+    | Some v' =>
+      let agree := negb err && same post v' in
+      (* the identity leaves the bag as it was when every match survives the native round trip *)
+      let idg := match f with MId => forallb native_ok (get_all p pre) | MConst _ => false end in
+      if agree then (if g && idg && negb (same v' pre) then 3%N else 0%N)
+      else if g then 2%N else 1%N
     end
   | ORemove p =>
     match bag_remove p pre with
